@@ -6,7 +6,7 @@ Domain : the real FastAPI app `nemoguardrails.server.api.app` driven through `Te
          BASE/solo/{cfgB,root-evil,cfgA-evil,outside/secret} next to it; every case starts the server on one of the
          two roots (module defaults + the app's own startup handlers, which pick the mode);
          `api.LLMRails` is a stub that records the messages it is asked to continue and answers with a digest of
-         them; `RailsConfig.from_path` is wrapped (call-through) to record every path, and an audit hook records
+         them, or - scripted per turn - with an EMPTY assistant message (flow ending in `stop`) / a fixed bot text; `RailsConfig.from_path` is wrapped (call-through) to record every path, and an audit hook records
          every open/listdir/scandir below BASE that is not below the root of the case.
          part "ids"     : 1-4 requests whose config_id / config_ids come from a grammar over dot sequences,
                           separators, percent-encodings, unicode look-alikes, absolute paths, valid names;
@@ -25,8 +25,8 @@ Oracle : ids - every path handed to from_path resolves (realpath) to the root or
          root only the root's folder name is such an id and it loads the root itself; every other
          request gets the fixed "Could not load the [...] guardrails configuration. An internal error has
          occurred." reply and no rails run.  threads - reference model dict[thread_id] -> list: the stub must
-         receive model[tid] + new messages, the reply is stored behind them, the set of stored threads equals the
-         model after every step (so other threads are unchanged).  A turn with a datastore read fault either does
+         receive model[tid] + new messages, the reply exactly as delivered (also when its content is empty) is stored
+         behind them, the set of stored threads equals the model after every step (so other threads are unchanged).  A turn with a datastore read fault either does
          not take place (no reply of its own, stored thread unchanged) or runs on exactly model[tid] + new messages
          and stores that + reply; the model keeps the thread unchanged otherwise.
 """
@@ -66,7 +66,13 @@ RULE = (
     "that thread's key raises (ConnectionError, TimeoutError, OSError, RuntimeError, KeyError, ValueError; 1/2), returns text that is not JSON (1/4), "
     "a truncated copy (1-99%) of the stored value (1/8) or JSON that is not a list (null, 42, a string, an object, true; 1/8), while set() keeps working "
     "(labels datastore-read-fault:<kind>, datastore-read-fault-on-thread-with-history), "
-    "followed by a probe request per thread. Enumerated: every joined form (each separator) of [cfgA,cfgB], [cfgB,cfgA], [cfgA,cfgB,cfgA], [cfgA,cfgA] "
+    "REPLY KIND drawn per turn that is not a failing one (thread turns, turns without thread id, read-fault turns, and separately the turn that "
+    "overlaps another one): 7/10 the digest of the received messages, 1/5 an assistant message with EMPTY content (what the rails deliver when a flow "
+    "ends in `stop` without a bot message), 1/10 the fixed text 'Hello!' (equal on all threads) - the model stores the reply exactly as delivered and the "
+    "next turn of that thread must receive it (labels reply:empty-content, reply:fixed-text, empty-reply-then-thread-used-again, empty-reply-on-overlapping-turn), "
+    "followed by a probe request per thread. Enumerated (first): for each reply kind - interleaved turns on two threads with that reply on a thread with history, "
+    "on fresh threads / a request without thread id, several in a row (also with empty user text), as the overlapping and the overlapped turn, next to read-fault turns - "
+    "and one mix of both kinds on 255-character ids; then: every joined form (each separator) of [cfgA,cfgB], [cfgB,cfgA], [cfgA,cfgB,cfgA], [cfgA,cfgA] "
     "before and after that combination was served (config_id, one-element list, next to a valid name, reversed order) followed by the combination again; "
     "every read fault kind/value on a thread with history and on a fresh thread between turns on two threads; every curated id alone / after a valid load / inside lists on the "
     "multi-config root, and every curated id, sibling folder name, '' and '.' alone (config_id and one-element list) and around loads "
@@ -95,6 +101,9 @@ ASSUMPTIONS = [
     "messages and stores that list + reply; the reply text of a turn that did not take place is not asserted; a store that answers None/'' "
     "for an existing thread (indistinguishable from a new thread) and faults of set() are not generated; read faults are not combined with "
     "context, a failing generation or an overlapping turn",
+    "reply kinds: the scripted rails return {'role': 'assistant', 'content': ...} with the digest, '' or 'Hello!' as content (a dict, as "
+    "LLMRails.generate_async does without options); 'the new reply' of the statement is that message as returned to the client, whatever its content; "
+    "failing turns have no reply kind; GenerationResponse replies (options) and streaming are not generated",
     "joined forms are judged like any other id string, by whether the string names a configuration directory of the root (the join of a "
     "one-element list is that id itself; no join of two valid names names a directory); the labels joined-form-* do not enter the verdict",
 ]
@@ -138,7 +147,17 @@ def _digest(messages):
     return hashlib.sha1(json.dumps(messages, sort_keys=True, ensure_ascii=True).encode()).hexdigest()[:12]
 
 
-def _reply_for(messages):
+# what the scripted rails answer on a turn: a digest of the messages they received (default), an EMPTY assistant message
+# (what the rails deliver when a flow ends in `stop` without a bot message), or a fixed bot text (the same on every thread)
+REPLY_KINDS = ("empty", "fixed")
+FIXED_REPLY = "Hello!"
+
+
+def _reply_for(messages, kind=None):
+    if kind == "empty":
+        return {"role": "assistant", "content": ""}
+    if kind == "fixed":
+        return {"role": "assistant", "content": FIXED_REPLY}
     return {"role": "assistant", "content": "R:" + _digest(messages)}
 
 
@@ -170,6 +189,7 @@ def _env():
     e.paths, e.calls, e.touched = [], [], []
     e.watch = False
     e.nested, e.nested_result = None, None
+    e.reply_kind = None  # reply kind scripted for the next turn that reaches the rails (threads part)
 
     class StubRails:
         def __init__(self, config=None, llm=None, verbose=False, **kwargs):
@@ -179,6 +199,7 @@ def _env():
         async def generate_async(self, messages=None, **kwargs):
             snap = json.loads(json.dumps(messages))
             e.calls.append(snap)
+            kind, e.reply_kind = e.reply_kind, None
             if e.nested is not None:
                 # another request (other thread id) arrives and is served completely while this one is being generated;
                 # it runs as its own task with an empty context, like a request accepted by the server meanwhile
@@ -188,6 +209,7 @@ def _env():
                 import httpx
 
                 body, e.nested = e.nested, None
+                e.reply_kind = body.pop("_reply", None)  # the reply scripted for the turn that arrives meanwhile
 
                 async def inner():
                     async with httpx.AsyncClient(transport=httpx.ASGITransport(app=api.app), base_url="http://testserver") as c:
@@ -200,7 +222,7 @@ def _env():
                 e.nested_result = await asyncio.get_running_loop().create_task(inner(), context=contextvars.Context())
             if snap and isinstance(snap[-1], dict) and snap[-1].get("content") == BOOM:
                 raise RuntimeError("scripted generation failure")
-            return _reply_for(snap)
+            return _reply_for(snap, kind)
 
     api.LLMRails = StubRails
     orig = api.RailsConfig.from_path
@@ -540,9 +562,17 @@ def _threads_case(draw):
             # a turn on ANOTHER thread is served completely while this turn is being generated
             other = draw(st.sampled_from([t for t in range(3) if t != tid]))
             op["during"] = {"tid": other, "cfg": draw(st.sampled_from(["cfgA", "cfgB"])), "messages": draw(st.lists(_message(), min_size=1, max_size=2))}
+            rk = draw(st.integers(0, 9))
+            if rk < 3:
+                op["during"]["reply"] = "empty" if rk < 2 else "fixed"
         if tid is not None and ctx is None and not op.get("fail") and "during" not in op and draw(st.integers(0, 5)) == 0:
             # the datastore cannot be read for this thread during this turn (writing keeps working)
             op["read_fault"] = draw(_read_fault())
+        if not op.get("fail"):
+            # what the rails answer on this turn: 1/5 an EMPTY assistant message, 1/10 a fixed bot text, else the digest
+            rk = draw(st.integers(0, 9))
+            if rk < 3:
+                op["reply"] = "empty" if rk < 2 else "fixed"
         ops.append(op)
     return {"part": "threads", "tids": tids, "ops": ops}
 
@@ -568,7 +598,42 @@ def strategy(tier):
     return _case()
 
 
+def _reply_kind_cases():
+    """Turns whose reply is empty / a fixed text, on threads with and without history, alone, in a row, interleaved over
+    two threads, as the overlapped turn and as the turn that is overlapped, and next to a datastore read fault."""
+    m = lambda s: [{"role": "user", "content": s}]  # noqa: E731
+    tids = ["t" * 16, "t" * 17, "thread-abcdefghij"]
+
+    def seq(spec, texts=None):
+        ops = []
+        for i, (t, rk) in enumerate(spec):
+            o = {"tid": t, "cfg": "cfgA" if i % 3 else "cfgB", "messages": m(texts[i] if texts else f"m{i}"), "context": None}
+            if rk:
+                o["reply"] = rk
+            ops.append(o)
+        return ops
+
+    for rk in REPLY_KINDS:
+        # two threads in turn, each with a turn of that kind on a thread with history; then on fresh threads; then in a row
+        yield {"part": "threads", "tids": tids, "ops": seq([(0, None), (1, None), (0, rk), (1, None), (0, None), (1, rk)])}
+        yield {"part": "threads", "tids": tids, "ops": seq([(0, rk), (1, rk), (0, None), (2, None), (1, None), (2, rk), (None, rk), (2, None)])}
+        yield {"part": "threads", "tids": tids, "ops": seq([(0, None), (0, rk), (0, rk), (1, rk), (0, None), (1, None), (0, rk)], ["hi", "", "hi", "hi", "", "a", "hi"])}
+        # the turn that arrives while another one is generated / the turn during which another one arrives
+        ops = seq([(0, None), (1, None), (0, None), (1, rk), (0, None), (1, None)])
+        ops[2]["during"] = {"tid": 1, "cfg": "cfgA", "messages": m("d2"), "reply": rk}
+        ops[3]["during"] = {"tid": 2, "cfg": "cfgB", "messages": m("d3")}
+        yield {"part": "threads", "tids": tids, "ops": ops}
+        # next to a turn whose thread cannot be read
+        ops = seq([(0, None), (1, rk), (0, rk), (1, None), (0, None), (1, rk)])
+        ops[3]["read_fault"] = {"kind": "raise", "exc": "ConnectionError"}
+        ops[5]["read_fault"] = {"kind": "garbage", "value": "{"}
+        yield {"part": "threads", "tids": tids, "ops": ops}
+    yield {"part": "threads", "tids": ["x" * 255, "x" * 254, "T" * 16], "ops": seq([(0, "empty"), (1, "fixed"), (0, "fixed"), (1, "empty"), (2, "empty"), (0, None), (1, None), (2, "fixed")])}
+
+
 def enumerate_cases(tier):
+    # reply kinds of the thread leg first (few and cheap)
+    yield from _reply_kind_cases()
     # every curated id alone, after a valid load, and inside a list behind a valid name
     for cid in CURATED:
         yield {"part": "ids", "requests": [{"config_id": cid}], "strict": True}
@@ -772,6 +837,7 @@ def _threads_run(e, case):
     n_overlaps = 0
     n_faults = n_faults_hist = 0
     fault_kinds = set()
+    reply_kinds = set()
     probes = [{"tid": i, "cfg": "cfgA", "messages": [{"role": "user", "content": f"probe-{i}"}], "context": None, "probe": True} for i in range(3)]
     for n, op in enumerate(list(case["ops"]) + probes):
         tid = None if op["tid"] is None else tids[op["tid"]]
@@ -786,7 +852,7 @@ def _threads_run(e, case):
             body["context"] = op["context"]
         during = op.get("during")
         if during:
-            e.nested = {"messages": json.loads(json.dumps(during["messages"])), "config_id": during["cfg"], "thread_id": tids[during["tid"]]}
+            e.nested = {"messages": json.loads(json.dumps(during["messages"])), "config_id": during["cfg"], "thread_id": tids[during["tid"]], "_reply": during.get("reply")}
             e.nested_result = None
         fault = op.get("read_fault") if tid is not None else None
         if fault:
@@ -796,10 +862,16 @@ def _threads_run(e, case):
                 full = raw if raw is not None else "[]"
                 f["value"] = full[: min(len(full) - 1, max(1, len(full) * fault["keep"] // 100))]
             e.fault, e.fault_hits = f, 0
+        kind = op.get("reply")  # what the scripted rails answer on this turn (None: digest of what they received)
+        e.reply_kind = kind
         try:
             status, js, paths, calls, touched = _post(e, body)
         finally:
             e.fault = None
+            e.reply_kind = None
+        for k in (kind, (during or {}).get("reply")):
+            if k:
+                reply_kinds.add(k)
         what = f"step #{n} thread={tid!r:.40} cfg={op['cfg']!r} new={op['messages']!r}" + (f" context={op['context']!r}" if op.get("context") else "")
         if fault:
             # The datastore could not be read for this thread during this turn. The statement leaves two outcomes: the turn
@@ -819,12 +891,12 @@ def _threads_run(e, case):
             for c in calls:
                 if c != expected:
                     raise Violation("wrong-history-used", f"{what}: rails received {len(c)} messages {json.dumps(c)[:300]} but stored thread + new messages is {len(expected)} messages {json.dumps(expected)[:300]}")
-            replied = status == 200 and isinstance(js, dict) and len(calls) == 1 and js.get("messages") == [_reply_for(calls[0])]
+            replied = status == 200 and isinstance(js, dict) and len(calls) == 1 and js.get("messages") == [_reply_for(calls[0], kind)]
             try:
                 now = json.loads(e.store.data.get("thread-" + tid, "[]"))
             except ValueError:
                 now = {"not-json": e.store.data.get("thread-" + tid)}
-            want = expected + [_reply_for(expected)] if replied else model[tid]
+            want = expected + [_reply_for(expected, kind)] if replied else model[tid]
             if now != want:
                 raise Violation(
                     "wrong-thread-store",
@@ -848,7 +920,7 @@ def _threads_run(e, case):
             exp2 = model[tid2] + during["messages"]
             if inner_received != exp2:
                 raise Violation("wrong-history-used", f"{what}: the overlapped turn received {json.dumps(inner_received)[:300]} but its stored thread + new messages is {json.dumps(exp2)[:300]}")
-            reply2 = _reply_for(inner_received)
+            reply2 = _reply_for(inner_received, during.get("reply"))
             if not isinstance(e.nested_result[1], dict) or e.nested_result[1].get("messages") != [reply2]:
                 raise Violation("wrong-reply", f"{what}: the overlapped turn answered {str(e.nested_result[1])[:200]}, its reply is {reply2!r}")
             model[tid2] = inner_received + [reply2]
@@ -870,7 +942,7 @@ def _threads_run(e, case):
         if status != 200 or len(calls) != 1 or not isinstance(js, dict):
             raise Violation("turn-failed", f"{what}: HTTP {status} {str(js)[:200]}, rails calls {len(calls)}")
         received = calls[0]
-        reply = _reply_for(received)
+        reply = _reply_for(received, kind)
         if js.get("messages") != [reply]:
             raise Violation("wrong-reply", f"{what}: response {str(js)[:200]} is not the reply {reply!r} produced for this turn")
         if tid is None:
@@ -909,6 +981,18 @@ def _threads_run(e, case):
     if n_overlaps:
         labels.append("overlapping-turns-on-two-threads")
     labels += ["datastore-read-fault:" + k for k in sorted(fault_kinds)]
+    labels += ["reply:" + {"empty": "empty-content", "fixed": "fixed-text"}[k] for k in sorted(reply_kinds)]
+    seen_empty = set()
+    for o in case["ops"]:
+        if o["tid"] is not None and o["tid"] in seen_empty:
+            labels.append("empty-reply-then-thread-used-again")
+            break
+        if o.get("reply") == "empty" and o["tid"] is not None and not o.get("read_fault"):
+            seen_empty.add(o["tid"])
+        if (o.get("during") or {}).get("reply") == "empty":
+            seen_empty.add(o["during"]["tid"])
+    if any((o.get("during") or {}).get("reply") == "empty" for o in case["ops"]):
+        labels.append("empty-reply-on-overlapping-turn")
     if n_faults_hist:
         labels.append("datastore-read-fault-on-thread-with-history")
     if any(isinstance(o["cfg"], list) for o in case["ops"]):
